@@ -180,10 +180,21 @@ def mutate(rng, a):
             a = {"c": "All", "args": [a, {"c": "Any", "args": [{"c": "str", "id": rng.choice(named)["id"]}, {"c": "str", "id": "zz"}]}]}
     elif op == "self-reference":
         n["id"] = n.get("id", "SELF")
-        n["args"].append({"c": "str", "id": n["id"]})
+        if rng.random() < 0.4:
+            # … through a leaf that is fixed to the constant the sub-proposition itself is fixed to
+            c = rng.choice([1, 1, 0])
+            n["$fix"] = c
+            n["args"].append({"c": "var", "id": n["id"], "lo": c, "hi": c})
+        else:
+            n["args"].append({"c": "str", "id": n["id"]})
     elif op == "cycle":
-        a = {"c": "All", "args": [a, {"c": "All", "args": [{"c": "str", "id": "CB"}, {"c": "str", "id": "u"}], "id": "CA"},
-                                  {"c": "All", "args": [{"c": "str", "id": "CA"}, {"c": "str", "id": "u"}], "id": "CB"}]}
+        if rng.random() < 0.4:
+            c1, c2 = rng.choice([(1, 1), (0, 0), (1, 0)])
+            a = {"c": "All", "args": [a, {"c": "All", "args": [{"c": "var", "id": "CB", "lo": c2, "hi": c2}, {"c": "str", "id": "u"}], "id": "CA", "$fix": c1},
+                                      {"c": "All", "args": [{"c": "var", "id": "CA", "lo": c1, "hi": c1}, {"c": "str", "id": "u"}], "id": "CB", "$fix": c2}]}
+        else:
+            a = {"c": "All", "args": [a, {"c": "All", "args": [{"c": "str", "id": "CB"}, {"c": "str", "id": "u"}], "id": "CA"},
+                                      {"c": "All", "args": [{"c": "str", "id": "CA"}, {"c": "str", "id": "u"}], "id": "CB"}]}
     return a, op
 
 
